@@ -711,6 +711,29 @@ fn eval_pair(ctx: &Ctx, a: &DIDUrl, b: &DIDUrl, case: impl Fn() -> Case, l: &mut
   ab
 }
 
+/// The well-formed DID URL `s` rebuilt from its bare DID with the three setters equals the parsed value.
+fn eval_built(ctx: &Ctx, s: &str, parsed: &DIDUrl) {
+  let case = Case::Pair { a: s.to_owned(), b: s.to_owned() };
+  let Ok(p) = classify_url(s) else { return };
+  let built = guard(|| -> Result<DIDUrl, identity_did::Error> {
+    let mut u = DIDUrl::parse(format!("did:{}:{}", p.method, p.msid))?;
+    u.set_path(Some(p.path))?;
+    u.set_query(p.query)?;
+    u.set_fragment(p.fragment)?;
+    Ok(u)
+  });
+  match built {
+    Ok(Ok(u)) => {
+      if u != *parsed || u.cmp(parsed) != Ordering::Equal || hash_of(&u) != hash_of(parsed) || u.to_string() != s {
+        ctx.violation("DIDUrl::set_*|built-value-differs-from-parsed-value", &format!("{s:?}: built {:?}", u.to_string()), &case);
+      }
+    }
+    // a setter refusing a component that parse accepted (or the reverse) is recorded by the op table
+    Ok(Err(_)) => {}
+    Err(pn) => ctx.violation(&format!("DIDUrl::set_*|{}", pkey(&pn)), &format!("{s:?}: {}", pn.msg), &case),
+  }
+}
+
 // ---- did:jwk
 fn b64url_decode(s: &str) -> Option<Vec<u8>> {
   let mut acc: u32 = 0;
@@ -837,6 +860,9 @@ fn eval_local(ctx: &Ctx, case: &Case, l: &mut Local) {
     Case::Pair { a, b } => {
       if let (Ok(Ok(x)), Ok(Ok(y))) = (guard(|| DIDUrl::parse(a)), guard(|| DIDUrl::parse(b))) {
         eval_pair(ctx, &x, &y, || case.clone(), l);
+        if a == b {
+          eval_built(ctx, a, &x);
+        }
       } else {
         l.outcome("pair: member rejected by parse (not judged)");
       }
@@ -1120,22 +1146,7 @@ fn generate(ctx: &Ctx) {
       eval_pair(ctx, &pool[i].1, &pool[j].1, || Case::Pair { a: pool[i].0.clone(), b: pool[j].0.clone() }, &mut l);
       // a value built with setters from the bare DID compares like the parsed one
       if i == j {
-        let built = guard(|| {
-          let p = classify_url(&pool[i].0).expect("pool is well-formed");
-          let mut u = DIDUrl::parse(format!("did:{}:{}", p.method, p.msid)).expect("bare did");
-          u.set_path(Some(p.path)).expect("path");
-          u.set_query(p.query).expect("query");
-          u.set_fragment(p.fragment).expect("fragment");
-          u
-        });
-        match built {
-          Ok(u) => {
-            if u != pool[i].1 || u.cmp(&pool[i].1) != Ordering::Equal || hash_of(&u) != hash_of(&pool[i].1) || u.to_string() != pool[i].0 {
-              ctx.violation("DIDUrl::set_*|built-value-differs-from-parsed-value", &format!("{:?}", pool[i].0), &Case::Pair { a: pool[i].0.clone(), b: pool[i].0.clone() });
-            }
-          }
-          Err(p) => ctx.violation(&format!("DIDUrl::set_*|well-formed-component-refused|{}", pkey(&p)), &format!("{:?}: {}", pool[i].0, p.msg), &Case::Pair { a: pool[i].0.clone(), b: pool[i].0.clone() }),
-        }
+        eval_built(ctx, &pool[i].0, &pool[i].1);
       }
       l.distinct(&(3u8, i, j));
       l
